@@ -75,7 +75,8 @@ type Contract struct {
 	Closures  map[int][]GhostUpdate // ghost updates at MakeClosure ordinal k
 	Ghosts    []GhostStmt
 	Thread    bool
-	Terminates bool // every loop of the function needs a variant (or is a range loop)
+	Terminates bool // every loop of the function needs a variant (or is a range loop); every callee terminates
+	Decreases  []*Clause // recursion measure: a lexicographic tuple of integers (booleans count as 0/1), see term.go
 	Atomic      bool       // trusted primitive that takes effect atomically (one linearization point)
 	Linearizable bool      // verified under interference: see linear.go
 	Shared      []AssignTarget // the shared abstract state other threads may change between primitive calls
@@ -518,6 +519,23 @@ func (s *Specs) loadSpecFile(w *World, path string, pkg *packages.Package, trust
 				return fail(l, "terminates outside contract")
 			}
 			cur.Terminates = true
+		case "decreases":
+			// decreases e1, e2, ...: the function's recursion measure (lexicographic, every component bounded below by 0)
+			if cur == nil {
+				return fail(l, "decreases outside contract")
+			}
+			if len(cur.Decreases) > 0 {
+				return fail(l, "duplicate decreases clause")
+			}
+			for _, part := range splitTopLevel(rest, ',') {
+				c, err := parseClause(strings.TrimSpace(part), path, l.line)
+				if err != nil {
+					return err
+				}
+				c.Pkg = pkg
+				c.Label = "decreases"
+				cur.Decreases = append(cur.Decreases, c)
+			}
 		case "guarded":
 			// guarded <mutex>: target, target ...   (thread contracts: lockset discipline for shared locations)
 			if cur == nil {
